@@ -244,6 +244,41 @@ fn run_case(c: &Case) -> Option<(String, String)> {
         if c.mode[0] == "check" && c.filter.is_none() && cell("Total HBFs") != Some(e.hbfs.to_string()) {
             return Some(("report:Total HBFs".into(), format!("report shows Total HBFs {:?}, the input has {} stop-bit packets", cell("Total HBFs"), e.hbfs)));
         }
+        if c.mode[0] == "check" && c.filter.is_none() {
+            // Data size rows: total = RDHs x 64 + payload bytes, in the report's units (B up to 1024, then KiB / MiB
+            // with two decimals)
+            let fmt_size = |n: u64| -> String {
+                match n {
+                    0..=1024 => format!("{n} B"),
+                    1025..=1048576 => format!("{:.2} KiB", n as f64 / 1024.0),
+                    1048577..=1073741824 => format!("{:.2} MiB", n as f64 / 1048576.0),
+                    _ => format!("{:.2} GiB", n as f64 / 1073741824.0),
+                }
+            };
+            let rdh_bytes = e.rdhs_seen * 64;
+            if cell("Data size") != Some(fmt_size(rdh_bytes + e.payload_size)) {
+                return Some(("report:Data size".into(), format!("report shows data size {:?}, the input has {} RDH bytes + {} payload bytes = {}", cell("Data size"), rdh_bytes, e.payload_size, fmt_size(rdh_bytes + e.payload_size))));
+            }
+            if cell("RDHs:") != Some(fmt_size(rdh_bytes)) || cell("Payloads:") != Some(fmt_size(e.payload_size)) {
+                return Some(("report:Data size parts".into(), format!("report shows RDHs {:?} / Payloads {:?}, expected {} / {}", cell("RDHs:"), cell("Payloads:"), fmt_size(rdh_bytes), fmt_size(e.payload_size))));
+            }
+            // Layers/Staves: every pair seen, sorted
+            let mut want_ls: Vec<(u64, u64)> = e.layer_staves.clone();
+            want_ls.sort();
+            let mut got_ls: Vec<(u64, u64)> = Vec::new();
+            for tok in out.split(|ch: char| ch.is_whitespace() || ch == '│' || ch == '|') {
+                if let Some(rest) = tok.strip_prefix('L') {
+                    if let Some((l, s2)) = rest.split_once('_') {
+                        if let (Ok(l), Ok(s2)) = (l.parse::<u64>(), s2.parse::<u64>()) {
+                            got_ls.push((l, s2));
+                        }
+                    }
+                }
+            }
+            if got_ls != want_ls {
+                return Some(("report:Layers/Staves".into(), format!("report lists layer/stave pairs {:?}, the analysed packets carry {:?}", got_ls, want_ls)));
+            }
+        }
         if c.filter.is_some() {
             // FILTER STATS block: the RDHs row there is the number of matching packets
             let frow = out.lines().find(|l| l.contains("RDHs  ") && !l.contains("Total RDHs") && !l.contains("RDHs:")).map(|l| nums(l.split("RDHs").nth(1).unwrap_or("")).first().copied());
@@ -415,7 +450,7 @@ pub fn run(tier: Tier) -> i32 {
     rep.cov("evaluations", json!(cases.len()));
     rep.cov("distinct_nontrivial", json!(nontrivial));
     rep.cov("exhaustive", json!(true));
-    rep.cov("rule", json!("streams {arbitrary headers over 3 interleaved links with 1/5/12(big payloads, total > 2^16)/100/101(/201) packets; every RDH sequence of length <= 2 (quick) / 3 (thorough) over 48 symbols {2 links} x {2 FEE ids, independent of the link} x {stop 0/1} x {6 trigger words: none, all 20 counted bits, the even / odd halves, HB+orbit+TF, PhT+gap2}, modes / filters / formats / sources rotating; 6 conforming witnesses; witnesses with 1/3/21 RDH sanity faults} x 9 modes (5 checks, 3 views, filtered writing) x filters (none, present link/FEE/stave, absent link) x {JSON, TOML} x {file, stdin}; statistics file fields and report rows (Total RDHs, Total Errors, Links observed, FEE IDs seen, Run Trigger Type, RDH Version, Data Format, Total HBFs, filter RDHs) vs the independent calculator. non-trivial = a filter is active or errors are expected"));
+    rep.cov("rule", json!("streams {arbitrary headers over 3 interleaved links with 1/5/12(big payloads, total > 2^16)/100/101(/201) packets; every RDH sequence of length <= 2 (quick) / 3 (thorough) over 48 symbols {2 links} x {2 FEE ids, independent of the link} x {stop 0/1} x {6 trigger words: none, all 20 counted bits, the even / odd halves, HB+orbit+TF, PhT+gap2}, modes / filters / formats / sources rotating; 6 conforming witnesses; witnesses with 1/3/21 RDH sanity faults} x 9 modes (5 checks, 3 views, filtered writing) x filters (none, present link/FEE/stave, absent link) x {JSON, TOML} x {file, stdin}; statistics file fields and report rows (Total RDHs, Total Errors, Links observed, FEE IDs seen, Run Trigger Type, RDH Version, Data Format, Total HBFs, Data size with its RDHs / Payloads parts, Layers/Staves, filter RDHs) vs the independent calculator. non-trivial = a filter is active or errors are expected"));
     rep.sample(json!({"expected_fields": ["rdhs_seen", "rdhs_filtered", "payload_size", "links (sorted)", "fee_id (first seen)", "rdh_version", "data_format", "system_id", "run_trigger_type", "hbfs_seen", "layer_staves_seen", "trigger_stats.*", "total_errors", "unique_error_codes"]}));
     rep.assume("run trigger type: the raw value is compared, its textual description is not");
     rep.finish()
